@@ -13,6 +13,13 @@ for d in sorted(glob.glob(f'/verif/seeded/{pid}-*/meta.json')):
         pass
 avoid = ("\n\nChanges of the following kinds were ALREADY produced by earlier rounds — yours must be different in location or mechanism "
          "(other functions, other branches, other cooperating sites, other configurations):\n" + "\n".join(tried) + "\n") if tried else ""
+extra = ""
+if os.environ.get("ROUND3"):
+    extra = ("In THIS round prefer changes that are NOT in the most obvious function of the most obvious file: put them in the helper modules this "
+             "property relies on (other files of the anchors list and what they call: array list, linked list, hash table, byte-buffer helpers, "
+             "allocator wrappers, condition variables, reference counting, clocks, error handling), in less-travelled public entry points of the same "
+             "API (variants, _secure/_dynamic/_n/_ignore_case forms, clean-up / reset / move / swap / copy paths), in initialisation and tear-down, or "
+             "in the glue between two components — as long as the effect is a genuine violation of THIS property.\n\n")
 prop = json.dumps({k: p[k] for k in ('id', 'title', 'statement', 'quantifier', 'why_tests_cant', 'anchors')}, indent=1)
 print(f"""You are testing how well a C library's correctness properties are guarded. The library is awslabs/aws-c-common. You have your own scratch git worktree of it at {wt} (a detached checkout of the current HEAD). Work ONLY inside {wt} (and subdirectories you create there or under {wt}_out); do not read or write /verif, /repo, /root, or other directories under /tmp — your result must be independent of any existing verification machinery. No network.
 
@@ -20,7 +27,7 @@ The property (behavioural, must hold for every input / schedule / history it qua
 {prop}
 
 {avoid}
-YOUR TASK: produce {n} DIFFERENT source changes (each one small, realistic — the kind of slip a maintainer could make in a refactor or "optimisation": an off-by-one in a guard, a dropped update, a wrong branch order, a boundary condition, two cooperating sites that each look fine alone) to the library such that, for each change separately:
+{extra}YOUR TASK: produce {n} DIFFERENT source changes (each one small, realistic — the kind of slip a maintainer could make in a refactor or "optimisation": an off-by-one in a guard, a dropped update, a wrong branch order, a boundary condition, two cooperating sites that each look fine alone) to the library such that, for each change separately:
  1. the library still compiles without new warnings-as-errors and the EXISTING test suite still passes completely. Build and test like this: `cmake -G Ninja -S {wt} -B {wt}/_b -DCMAKE_BUILD_TYPE=RelWithDebInfo >/dev/null && cmake --build {wt}/_b 2>&1 | tail -3 && ctest --test-dir {wt}/_b -j8 --timeout 900 2>&1 | tail -5` (451 tests, all must pass; run it once BEFORE changing anything to see the baseline).
  2. the change BREAKS the property above (a genuine violation of the stated behaviour, not merely different internals), and
  3. the violation needs something SPECIFIC to manifest — a particular interleaving, a fault at a particular point, a multi-step sequence of operations, an unusual input or boundary value, a non-default implementation variant/configuration, or two sites cooperating — not something ordinary use or the existing tests expose at once.
